@@ -1259,7 +1259,7 @@ class BasicCircleStatement(BasicRunCall):
                     expr_r,
                     expr_color
                     if expr_color is not None
-                    else BasicRunCall(
+                    else BasicFunctionCall(
                         "float", BasicExpressionList([BasicVar("display.hfore")])
                     ),
                     BasicLiteral(1.0),
@@ -1312,7 +1312,7 @@ class BasicEllipseStatement(BasicRunCall):
                     circle.expr_r,
                     circle.expr_color
                     if circle.expr_color is not None
-                    else BasicRunCall(
+                    else BasicFunctionCall(
                         "float", BasicExpressionList([BasicVar("display.hfore")])
                     ),
                     expr_ratio,
@@ -1352,7 +1352,7 @@ class BasicArcStatement(BasicRunCall):
                     ellipse.circle.expr_r,
                     ellipse.circle.expr_color
                     if ellipse.circle.expr_color is not None
-                    else BasicRunCall(
+                    else BasicFunctionCall(
                         "float", BasicExpressionList([BasicVar("display.hfore")])
                     ),
                     ellipse.expr_ratio,
